@@ -71,6 +71,7 @@ M = [
     ('c12_shallow_copy', GU, "        new_atom = copy.deepcopy(target_graph.nodes[node])\n", "        new_atom = dict(target_graph.nodes[node])\n", ['C12', 'C03']),
     ('c12_fragment_cache', RF, "    if fragment_dict is None:\n        fragment_dict = {}\n", "    if fragment_dict is None:\n        fragment_dict = {}\n    global _CACHE\n    try:\n        _CACHE\n    except NameError:\n        _CACHE = {}\n    if all_atom and len(fragment_str) < 40:\n        key = tuple(f.split('=')[0] for f in fragment_str[1:-1].split(','))\n        if key in _CACHE:\n            return _CACHE[key]\n        _CACHE[key] = fragment_dict\n", ['C12']),
     ('c12_set_iteration', R, "        edges = list(self.meta_graph.edges)\n", "        edges = list({str(e): e for e in set(map(frozenset, self.meta_graph.edges))}.keys())\n        edges = [tuple(e) if len(e) == 2 else (e, e) for e in set(map(frozenset, self.meta_graph.edges))]\n        edges = [e for e in edges if len(e) == 2]\n", ['C12', 'C15']),
+    ('c12_hash_order', R, "        edges = list(self.meta_graph.edges)\n", "        edges = sorted(self.meta_graph.edges, key=lambda e: hash(str(self.meta_graph.nodes[e[0]].get('fragname')) + str(e)))\n", ['C12']),
     # C13
     ('c13_order_not_reset_after_atom', RF, "            else:\n                smile += token\n            current_order = None\n            prev_node = node_count\n", "            else:\n                smile += token\n            prev_node = node_count\n", ['C13', 'C01']),
     ('c13_prev_not_restored', RF, "        elif token == ')':\n            prev_node = anchor.pop()\n", "        elif token == ')':\n            anchor.pop()\n", ['C13']),
